@@ -28,10 +28,19 @@ def plan(tier):
 def gen_case(rng, tier, i):
     from vlib.proggen import gen_program
     clock = ["float", "int", "duration"][i % 3]
-    prog = gen_program(rng, clock=clock, n_events=rng.randint(5, 60), bigint=True, fractional=True)
+    # one case in sixteen starts at a negative time and is cut by a bounded run at exactly zero (a zero bound - 0, 0.0,
+    # Duration(0) - is a bound like any other); a via_bound of 0.0 is a bounded run up to the start time itself
+    zero_cut = i % 16 == 7
+    if zero_cut:
+        prog = gen_program(rng, clock=clock, n_events=rng.randint(5, 60), fractional=True, horizon=20, start_at=(-10 if clock != "duration" else None),
+                           with_bad=(clock == "duration"))     # (the illegal requests of the generator presume a start >= 0)
+    else:
+        prog = gen_program(rng, clock=clock, n_events=rng.randint(5, 60), bigint=True, fractional=True)
+    if zero_cut:
+        return {"prog": prog, "via_bound": 0.5 if clock != "duration" else 0.0, "via_steps": False, "neighbour": False, "torn_down": False}
     # one case in four reaches the end through a bounded run first (the executed events must be the same; the horizon
     # rules themselves are C03's subject): the bound is a fraction of the run length added to the start time
-    return {"prog": prog, "via_bound": rng.choice([None, None, None, 0.25, 0.5, 0.75, 1.25, 2.0]) if i % 4 == 3 else None,     # (a bound beyond the end is the end itself, events at the end included)
+    return {"prog": prog, "via_bound": rng.choice([None, None, None, 0.0, 0.25, 0.5, 0.75, 1.25, 2.0]) if i % 4 == 3 else None,     # (a bound beyond the end is the end itself, events at the end included)
             "via_steps": i % 8 == 5,        # one case in eight is driven by step() alone
             # one case in eight shares the process with a second, live simulator of the same kind (its own model, initialised
             # after the judged one and run after it): two simulators have nothing in common
@@ -95,6 +104,19 @@ def run_case(case, ctx):
             if h.cmd("run_up_to", lit) != "ok" or not h.wait_quiescent(20):
                 ctx.viol("bounded-run-refused-or-hung", {**where, "bound": lit, "snapshot": h.snapshot()})
                 return
+            if b < start_t + length:
+                # an exclusive run that stops short of the end has executed exactly the events before its bound and left
+                # the clock at the bound; the replication has not ended
+                done = h.trace()
+                want_n = sum(1 for tag, t, _ in ref.trace if tag != WARMUP and t < b)
+                sn = h.snapshot()
+                ctx.count("bounded_runs_short_of_the_end_judged")
+                if b == 0:
+                    ctx.count("bounded_runs_with_a_bound_of_exactly_zero")
+                if any(t >= b for _, t in done) or len(done) != want_n or sn["run_state"] == "ENDED" or sn["clock"] != max(b, start_t):
+                    ctx.viol("bounded-run-short-of-the-end:events-or-clock-or-state", {**where, "bound": lit, "executed": len(done), "want": want_n,
+                                                                                      "beyond_bound": [x for x in done if x[1] >= b][:3], "snapshot": sn})
+                    return
         if case.get("via_steps"):
             ctx.count("runs_driven_by_step_alone")
             for _ in range(4 * len(ref.trace) + 20):
